@@ -223,14 +223,16 @@ fn replay_file<H: Harness>(h: &H, path: &Path) -> i32 {
 
 fn run_replay_subprocess(path: &Path, deadline_ms: u64) -> Result<Value, String> {
     let exe = std::env::current_exe().map_err(|e| e.to_string())?;
-    let mut child = Command::new(exe).arg("--replay").arg(path).stdout(Stdio::piped()).stderr(Stdio::null()).spawn().map_err(|e| e.to_string())?;
+    // stdout goes to a file, not a pipe: a long case description must not block the child
+    let out_path = path.with_extension("replay-out");
+    let out_file = std::fs::File::create(&out_path).map_err(|e| e.to_string())?;
+    let mut child = Command::new(exe).arg("--replay").arg(path).stdout(Stdio::from(out_file)).stderr(Stdio::null()).spawn().map_err(|e| e.to_string())?;
     let t0 = now_ms();
     loop {
         match child.try_wait().map_err(|e| e.to_string())? {
             Some(status) => {
-                let mut s = String::new();
-                use std::io::Read;
-                child.stdout.take().unwrap().read_to_string(&mut s).ok();
+                let s = std::fs::read_to_string(&out_path).unwrap_or_default();
+                std::fs::remove_file(&out_path).ok();
                 if let Some(sig) = std::os::unix::process::ExitStatusExt::signal(&status) {
                     return Ok(json!({"crash": format!("signal {}", sig)}));
                 }
@@ -245,6 +247,7 @@ fn run_replay_subprocess(path: &Path, deadline_ms: u64) -> Result<Value, String>
                 if now_ms() - t0 > deadline_ms {
                     child.kill().ok();
                     child.wait().ok();
+                    std::fs::remove_file(&out_path).ok();
                     return Ok(json!({"hang": deadline_ms}));
                 }
                 std::thread::sleep(std::time::Duration::from_millis(5));
